@@ -99,6 +99,8 @@ theorem parse_net_inv {c : Cfg} {s : Str} {i : URLInfo} {sch : Str} {dp : Nat}
     · split at h
       · -- not a network scheme: contradiction with hnet
         rename_i s2 _ hb
+        split at h
+        · cases h
         cases h
         simp only at hnet
         rw [hb] at hnet; cases hnet
@@ -1279,7 +1281,10 @@ theorem host_printable (c : Cfg) (hp : PrintParams c) (s : Str) (i : URLInfo)
     · rename_i s2 hs2
       have hrem : NoCtl s2.2 := schemeSplit_noctl hp hurl (sc := s2.1) (rem := s2.2) (by rw [hs2])
       split at h
-      · cases h; simp only at hnet; rename_i hb; rw [hb] at hnet; cases hnet
+      · rename_i hb
+        split at h
+        · cases h
+        cases h; simp only at hnet; rw [hb] at hnet; cases hnet
       · obtain ⟨host, hn, port0, hhn, hph, hsub⟩ := parseNet_host h
         obtain ⟨arg, harg, hasub⟩ := parseHost_arg_sub hph
         have hargn : NoCtl arg := fun x hx => hrem x (hsub x (hasub x hx))
